@@ -14,7 +14,7 @@ theorem eraseRows_effect (P : Params) (r c w : Nat) (hw : 1 ≤ w) (scr : Screen
     (execAll P scr (eraseRows r c w n)).face = scr.face ∧
     (execAll P scr (eraseRows r c w n)).place = scr.place ∧
     ∀ r', (execAll P scr (eraseRows r c w n)).grid r' =
-      if r ≤ r' ∧ r' < r + n then over (scr.grid r') c (c + w) (fun _ => .glyph 32 scr.face) else scr.grid r' := by
+      if r ≤ r' ∧ r' < r + n then over (scr.grid r') c (c + w) (fun _ => blankOf P scr.face) else scr.grid r' := by
   induction n with
   | zero =>
     refine ⟨rfl, rfl, ?_⟩
@@ -56,7 +56,7 @@ theorem imageCmds_effect (P : Params) (e : Nat × Nat × Nat × Nat) (hw : 1 ≤
     (execAll P scr (imageCmds P e)).place = (fun r' c' => if r' = e.1 ∧ c' = e.2.1 then some e.2.2.2 else scr.place r' c') ∧
     ∀ r', (execAll P scr (imageCmds P e)).grid r' =
       if e.1 ≤ r' ∧ r' < e.1 + (P.size e.2.2.2).1 then
-        over (scr.grid r') e.2.1 (e.2.1 + (P.size e.2.2.2).2) (fun _ => .glyph 32 e.2.2.1)
+        over (scr.grid r') e.2.1 (e.2.1 + (P.size e.2.2.2).2) (fun _ => blankOf P e.2.2.1)
       else scr.grid r' := by
   rw [imageCmds_eq, execAll_append, execAll_append]
   simp only [execAll_cons, execAll_nil]
@@ -79,7 +79,7 @@ theorem display_cont (P : Params) (hP : ParamsOk P) (H W : Nat) (s : Surface) (h
   obtain ⟨d1, d2⟩ := display_wp P hP H W s hs r c hr hc
   by_cases hcov : ∃ q : Nat × Nat, q.1 < H ∧ q.2 < W ∧ covers P s q (r, c) = true
   · obtain ⟨q, q1, q2, q3⟩ := hcov
-    rw [d1 q q1 q2 q3] at h; cases h
+    rw [d1 q q1 q2 q3] at h; exact absurd h (blankOf_ne_cont P _)
   · have hno : ∀ q : Nat × Nat, q.1 < H → q.2 < W → covers P s q (r, c) = false := by
       intro q q1 q2
       cases hq : covers P s q (r, c)
@@ -87,8 +87,8 @@ theorem display_cont (P : Params) (hP : ParamsOk P) (H W : Nat) (s : Surface) (h
       · exact absurd ⟨q, q1, q2, hq⟩ hcov
     rw [d2 hno] at h
     obtain ⟨ch, hk, hw⟩ := dispN_cont P _ h
-    simp only [normR] at hk
-    cases hsh : shadowedRaw P s r c
+    simp only [normD] at hk
+    cases hsh : shadowed P H W s r c
     · exfalso
       simp only [hsh, Bool.false_eq_true, if_false] at hk
       have hk' : (s r c).kind = .chr ch := by
@@ -97,10 +97,10 @@ theorem display_cont (P : Params) (hP : ParamsOk P) (H W : Nat) (s : Surface) (h
       obtain ⟨w1, _⟩ := hs
       rcases w1 r c ch hr hc hk' with h' | h' <;> omega
     · cases c with
-      | zero => simp [shadowedRaw] at hsh
+      | zero => simp [shadowed] at hsh
       | succ c' =>
-        simp only [shadowedRaw, Bool.and_eq_true] at hsh
-        exact ⟨c', rfl, hsh.1⟩
+        simp only [shadowed, Bool.and_eq_true] at hsh
+        exact ⟨c', rfl, hsh.1.1⟩
 
 /-- where the specification shows a wide glyph, the surface has a wide character -/
 theorem display_wide (P : Params) (hP : ParamsOk P) (H W : Nat) (s : Surface) (hs : WellPlaced P H W s)
@@ -110,7 +110,7 @@ theorem display_wide (P : Params) (hP : ParamsOk P) (H W : Nat) (s : Surface) (h
   by_cases hcov : ∃ q : Nat × Nat, q.1 < H ∧ q.2 < W ∧ covers P s q (r, c) = true
   · obtain ⟨q, q1, q2, q3⟩ := hcov
     rw [d1 q q1 q2 q3] at h
-    exact absurd h (not_wide_glyph P 32 _ (by rw [hP.sp]; omega))
+    exact absurd h (blankOf_not_wide P hP _)
   · have hno : ∀ q : Nat × Nat, q.1 < H → q.2 < W → covers P s q (r, c) = false := by
       intro q q1 q2
       cases hq : covers P s q (r, c)
@@ -118,8 +118,8 @@ theorem display_wide (P : Params) (hP : ParamsOk P) (H W : Nat) (s : Surface) (h
       · exact absurd ⟨q, q1, q2, hq⟩ hcov
     rw [d2 hno] at h
     have := dispN_wide P _ h
-    simp only [normR] at this
-    cases hsh : shadowedRaw P s r c
+    simp only [normD] at this
+    cases hsh : shadowed P H W s r c
     · simpa [hsh, isWide_rasterise] using this
     · simp [hsh, isWide, nulCell, hP.nul] at this
 
@@ -151,15 +151,15 @@ theorem pass3_correct (P : Params) (hP : ParamsOk P) (H W : Nat) (s : Surface) (
       intro r c; simp [covers, himg]
     simp only [List.flatMap_cons, execAll_append]
     generalize execAll P scr (imageCmds P e) = scr1 at f1 f2
-    have hblank : ¬ WideGlyph P (.glyph 32 e.2.2.1) := not_wide_glyph P 32 _ (by rw [hP.sp]; omega)
+    have hblank : ¬ WideGlyph P (blankOf P e.2.2.1) := blankOf_not_wide P hP _
     have hwf1 : WF P scr1 := by
       intro r'
       rw [f2 r']
       split
-      · apply over_wf P _ _ _ _ (by omega) (hwf r') (by simp)
+      · apply over_wf P _ _ _ (fun _ => blankOf P e.2.2.1) (by omega) (hwf r') (blankOf_ne_cont P _)
         · intro k _ _
           constructor
-          · intro h; cases h
+          · intro h; exact absurd h (blankOf_ne_cont P _)
           · intro h; exact absurd h hblank
         · exact hblank
       · exact hwf r'
@@ -193,8 +193,8 @@ theorem pass3_correct (P : Params) (hP : ParamsOk P) (H W : Nat) (s : Surface) (
             have hwg : WideGlyph P (scr.grid r c) := ((hwf r).2 c).1 (by rw [hl.1]; exact hl.2)
             rw [hold] at hwg
             have hw := display_wide P hP H W s hs' r c hr hc hwg
-            have := (w5 (e.1, e.2.1) r c e1 e2 hr hc hw).2
-            rw [(hcov r (c + 1)).2 ⟨hrow.1, hrow.2, by omega, by omega⟩] at this
+            have := w5 (e.1, e.2.1) r c e1 e2 hr hc hw
+            rw [(hcov r (c + 1)).2 ⟨hrow.1, hrow.2, by omega, by omega⟩, hce'] at this
             cases this
           · rw [if_neg hl]
             by_cases hrr : c = e.2.1 + (P.size e.2.2.2).2 ∧ scr.grid r (e.2.1 + (P.size e.2.2.2).2) = .cont
@@ -202,8 +202,8 @@ theorem pass3_correct (P : Params) (hP : ParamsOk P) (H W : Nat) (s : Surface) (
               have hcc : scr.grid r c = .cont := by rw [hrr.1]; exact hrr.2
               rw [hold] at hcc
               obtain ⟨c', hc', hw⟩ := display_cont P hP H W s hs' r c hr hc hcc
-              have := (w5 (e.1, e.2.1) r c' e1 e2 hr (by omega) hw).1
-              rw [(hcov r c').2 ⟨hrow.1, hrow.2, by omega, by omega⟩] at this
+              have := w5 (e.1, e.2.1) r c' e1 e2 hr (by omega) hw
+              rw [(hcov r c').2 ⟨hrow.1, hrow.2, by omega, by omega⟩, ← hc', hce'] at this
               cases this
             · rw [if_neg hrr]; exact hold
         · rw [if_neg hrow]; exact hold
